@@ -238,8 +238,36 @@ def run(ctx, anchors=None):
                      % ((n["n"], f.name, gating[0][0], ", ".join(gating[0][1]) or "that flag test") if gating else (n["n"], f.name, "", "")))
     ctx.floor("R03.8", n38, 5, "error returns of the taproot / tapscript consensus rules")
 
+    # ---- R03.9 BIP68 / BIP112 treat the transaction version as an unsigned number (a version with the top bit set is >= 2): an
+    # ordering comparison of nVersion is made on an unsigned operand.
+    ctx.rule("R03.9", "ordering comparisons of the transaction version are unsigned (BIP68)")
+    n39 = 0
+    seen39 = set()
+    for f in sorted(fb.funcs.values(), key=lambda f_: f_.id):
+        if f.body is None or not f.file.startswith(("script/interpreter.", "debugger/", "instance.")):
+            continue
+        if not any(x["k"] == "mem" and x.get("n") == "nVersion" for x in f.nodes()):
+            continue
+        for par in f.nodes():
+            if par["k"] != "bin" or par.get("op") not in ("<", "<=", ">", ">=") or (f.file, par.get("l"), par.get("c")) in seen39:
+                continue
+            sides = [sd for sd in (par["lhs"], par["rhs"]) if any(x["k"] == "mem" and x.get("n") == "nVersion" for x in walk(astq.expand(f, sd) or {}))]
+            if not sides:
+                continue      # (a local holding the version counts: `const uint32_t v = nVersion; if (v < 2)`)
+            seen39.add((f.file, par.get("l"), par.get("c")))
+            top = sides[0]
+            n39 += 1
+            ctx.site()
+            ty = (top.get("ty") or "")
+            uns = ty.replace("const ", "").startswith(("uint", "unsigned")) or "size_t" in ty
+            ctx.inst(uns, "R03.9", "version-compared-unsigned@" + f.name.split("(")[0].split("<")[0], f.loc(par), "`%s` compares the version as %s" % (astq.estr(par)[:50], ty),
+                     "`%s` in %s compares the version as the signed %s: a transaction whose version has the top bit set (0x80000002) counts as < 2, and OP_CHECKSEQUENCEVERIFY fails although consensus (BIP68/112) accepts it"
+                     % (astq.estr(par)[:60], f.name, ty or "int"))
+    ctx.floor("R03.9", n39, 1, "ordering comparisons of nVersion")
+
 
 MUTANTS = [
+    dict(name="version-compared-signed", file="script/interpreter.cpp", find="    if (static_cast<uint32_t>(txTo->nVersion) < 2)", replace="    if (txTo->nVersion < 2)", expect=["R03.9:version-compared-unsigned"]),
     dict(name="element-limit-on-the-whole-witness", file="instance.cpp", find="            for (const auto& item : stack) {\n                if (item.size() > MAX_SCRIPT_ELEMENT_SIZE) {", replace="            for (const auto& item : wstack) {\n                if (item.size() > MAX_SCRIPT_ELEMENT_SIZE) {", expect=["R03.6:element-limit-on-the-initial-stack"]),
     dict(name="annex-hashed-without-its-length", file="instance.cpp", find="                execdata.m_annex_hash = (HashWriter{} << stack.back()).GetSHA256();", replace="                execdata.m_annex_hash = (HashWriter{} << Span<const unsigned char>{stack.back()}).GetSHA256();", expect=["R03.6:annex-hash"]),
     dict(name="tapscript-minimalif-behind-the-policy-flag", file="script/interpreter.cpp", find="                        if (sigversion == SigVersion::TAPSCRIPT) {\n                            // The input argument to the OP_IF and OP_NOTIF opcodes must be either", replace="                        if (sigversion == SigVersion::TAPSCRIPT && (flags & SCRIPT_VERIFY_MINIMALIF)) {\n                            // The input argument to the OP_IF and OP_NOTIF opcodes must be either", expect=["R03.8:consensus-error-not-flag-gated:TAPSCRIPT_MINIMALIF@StepScript"]),
